@@ -112,7 +112,9 @@ namespace {
         static const char *bools[] = {"!true", "!false", "true && true", "false || true", "1 < 2", "!(1 < 2)", "true"};
         static const char *nums[] = {"-5", "+3", "1 + 2", "2 * 3.5", "~1", "int(5)", "double(2)", "7", "-(2)"};
         static const char *strs[] = {"\"a\" + \"b\"", "\"lit\"", "to_string(1) + \"z\""};
-        switch (rng.below(3)) {
+        switch (rng.below(5)) {
+        case 3: out += std::string("try { t(to_int(rebind(") + nums[rng.below(9)] + "))) } catch (e) { t(-6) }; "; break;
+        case 4: out += std::string("try { ts(rebind_s(") + strs[rng.below(3)] + ")) } catch (e) { t(-5) }; "; break;
         case 0: out += std::string("try { tb(flip(") + bools[rng.below(7)] + ")) } catch (e) { t(-7) }; "; break;
         case 1: out += std::string("try { t(to_int(bump_num(") + nums[rng.below(9)] + "))) } catch (e) { t(-8) }; "; break;
         default: out += std::string("try { ts(app(") + strs[rng.below(3)] + ")) } catch (e) { t(-9) }; "; break;
@@ -130,6 +132,10 @@ namespace {
     }
     std::string function_body() {
       std::string out, ret;
+      if (rng.chance(300)) {
+        // the frame is laid out differently for a == 1 and a == 2: every later local shifts by one slot
+        out += "a == 1 && eval(\"var " + nm("ex") + " = 1\") > 0; ";
+      }
       const int n = int(rng.range(1, 4));
       for (int i = 0; i < n; ++i) {
         piece(out, ret);
@@ -165,6 +171,8 @@ namespace {
                         "def flip(b) { b = !b; return b }\n"
                         "def bump_num(x) { x += 1; return x }\n"
                         "def app(s) { s += \"x\"; return s }\n"
+                        "def rebind(p) { p := p + 1; return p }\n"
+                        "def rebind_s(s) { s := s + \"!\"; return s }\n"
                         "def tb(b) { if (b) { t(1) } else { t(0) } }\n";
 
   struct CallOut {
